@@ -188,7 +188,7 @@ class TlcResult:
 
 
 def tlc(module, cfg=None, workers=None, env=None, timeout=1200, simulate=None, depth=None, coverage=False,
-        extra=(), heap="8g", deadlock=False, tag=None, dfs=False, seed=None):
+        extra=(), heap="8g", deadlock=False, tag=None, dfs=False, seed=None, extra_java=()):
     """Runs TLC on spec/<module>.tla with spec/<cfg>.cfg. Never raises on violation; raises Infra on
     parse/semantic errors and timeouts."""
     cfg = cfg or module
@@ -196,7 +196,7 @@ def tlc(module, cfg=None, workers=None, env=None, timeout=1200, simulate=None, d
     meta = os.path.join(BUILD, "tlc", f"{tag}.{os.getpid()}.{int(time.time() * 1000) % 100000}")
     os.makedirs(meta, exist_ok=True)
     workers = workers or min(NCPU, 16)
-    java = ["java", f"-Xmx{heap}", "-XX:+UseParallelGC", "-cp", TLA_JAR + ":/opt/veriftools/tla/CommunityModules-deps.jar"]
+    java = ["java", f"-Xmx{heap}", "-XX:+UseParallelGC", *extra_java, "-cp", TLA_JAR + ":/opt/veriftools/tla/CommunityModules-deps.jar"]
     if dfs:
         java.insert(1, "-Dtlc2.tool.queue.IStateQueue=StateDeque")
     cmd = ["timeout", str(timeout)] + java + ["tlc2.TLC", "-workers", str(workers), "-metadir", meta, "-config", cfg + ".cfg", "-noGenerateSpecTE"]
